@@ -459,7 +459,16 @@ class KindInference:
                 left = right
             return UNK
         if isinstance(e, (ast.Tuple, ast.List)):
-            return tuple(self.dim(x, env, fi) for x in e.elts)
+            ks = tuple(self.dim(x, env, fi) for x in e.elts)
+            if isinstance(e, ast.List) and len(ks) >= 2:
+                # a list display is a vector of like quantities: a bare number next to dimensionful siblings of one kind is a hard-wired scale
+                dims = [k for k in ks if isinstance(k, Dim) and not k.zero]
+                if dims and all(self._same_dim(d_, dims[0]) for d_ in dims) and len(dims) + sum(isinstance(k, Lit) for k in ks) == len(ks):
+                    for x, k in zip(e.elts, ks):
+                        if isinstance(k, Lit) and k.v not in (0, 0.0, None) and k.v not in (float("inf"), float("-inf")):
+                            self.report("absolute", fi, e, f"list of quantities of kind {dims[0]} with the bare number {k.v} as one element: `{src(e)[:60]}`",
+                                        f"listelem|{dims[0]}|lit{k.v}")
+            return ks
         if isinstance(e, ast.Subscript):
             base = self.dim(e.value, env, fi)
             self.dim(e.slice, env, fi) if not isinstance(e.slice, (ast.Slice, ast.Tuple)) else None
